@@ -500,7 +500,14 @@ func aliasOpenClose(w *World) {
 				&traits.OpenClosePosition{Direction: traits.OpenClosePosition_UP, OpenPercent: 2, Resistance: traits.OpenClosePosition_HELD},
 				&traits.OpenClosePosition{Direction: traits.OpenClosePosition_DOWN, OpenPercent: 3, Resistance: traits.OpenClosePosition_HELD}))
 	}
+	// a preset with a name and no title, and one with both: read-only calls (listing, describing) hand them out
+	presetOpen := &traits.OpenClosePositions_Preset{Name: "open"}
+	mopts = append(mopts,
+		openclosepb.WithPreset(presetOpen, &traits.OpenClosePosition{Direction: traits.OpenClosePosition_UP, OpenPercent: 100}),
+		openclosepb.WithPreset(&traits.OpenClosePositions_Preset{Name: "shut", Title: "Shut"}, &traits.OpenClosePosition{Direction: traits.OpenClosePosition_UP, OpenPercent: 0}))
 	m := openclosepb.NewModel(mopts...)
+	srv := openclosepb.NewModelServer(m)
+	mon.track("set-up: the preset given to WithPreset", presetOpen)
 	ctx, cancel := context.WithCancel(context.Background())
 	defer cancel()
 	if t.Flag(2, 3) {
@@ -522,7 +529,21 @@ func aliasOpenClose(w *World) {
 		for i := 0; i < n; i++ {
 			task.Yield("op")
 			var desc string
-			switch t.Choose(5) {
+			switch t.Choose(8) {
+			case 5:
+				r, _ := srv.DescribePositions(context.Background(), &traits.DescribePositionsRequest{})
+				desc = "DescribePositions()"
+				mon.track("caller: "+desc, r)
+			case 6:
+				desc = "ListPresets()"
+				for _, p := range m.ListPresets() {
+					mon.track("caller: "+desc, p)
+				}
+			case 7:
+				name := []string{"open", "shut"}[t.Choose(2)]
+				r, err := m.UpdatePositions(&traits.OpenClosePositions{Preset: &traits.OpenClosePositions_Preset{Name: name}})
+				desc = fmt.Sprintf("UpdatePositions(preset %s) -> %v", name, err)
+				mon.track("caller: result of "+desc, r)
 			case 0:
 				r, _ := m.GetPositions()
 				desc = "GetPositions()"
